@@ -120,6 +120,8 @@ def replay_lines(res):
             s = rest.strip()
             # rest is a TLA+ string literal: "…" with \" and \\ escapes
             outl.append(json.loads(json.loads(s)))
+    # TLC's workers print in a nondeterministic order: a canonical order makes every seeded sample reproducible
+    outl.sort(key=lambda x: json.dumps(x, sort_keys=True))
     return outl
 
 
